@@ -43,6 +43,7 @@ def gen(rng):
         n2 = int(math.prod(shape2)); kk = rng.random()
         codes2 = [lo2] * n2 if kk < 0.25 else ([hi2] * n2 if kk < 0.5 else [rng.randint(lo2, hi2) for _ in range(n2)])
         c.update({'f2': [s2, nw2, nf2], 'shape2': list(shape2), 'codes2': codes2})
+        if op == 'matmul' and rng.random() < 0.5: c['xcfg'] = rng.choice([{'n_word_max': 16}, {'max_error': 0.125}, {'n_word_max': 24, 'max_error': 0.01}])
     if op in ('trace', 'diagonal') and len(shape) != 2: c['op'] = 'sum'; c['axis'] = None
     if c['op'] in ('trace', 'diagonal') and rng.random() < 0.5:
         off = rng.choice([-1, 1, -2, 2])         # an off-diagonal (kept only when it is not empty)
@@ -91,6 +92,8 @@ def run_cases(cases, res):
                 if op == 'dot':
                     z = x.dot(y) if meth else np.dot(x, y); want_fmt = (s or s2, clog2(shape[-1]) + nw + nw2, nf + nf2)
                 else:
+                    if c.get('xcfg'):      # size-inference settings in the LEFT operand's configuration: the product is exact all the same
+                        for k_, v_ in c['xcfg'].items(): setattr(x.config, k_, v_)
                     z = np.matmul(x, y)
                 exact = np.dot(arr, arr2) * (lsb * Fraction(2) ** (-nf2))
             elif op == 'trace':
